@@ -21,8 +21,7 @@ def run(ctx, report):
     infos = mutators.analyse(ctx)
     core = [i for i in infos.values() if i.kind == "core"]
     wrappers = [i for i in infos.values() if i.kind == "wrapper"]
-    report.check("FLOOR", "core-mutators", len(core) >= FLOOR_CORE, "at least %d core mutators with a commit are analysed (found %d)" % (FLOOR_CORE, len(core)), config=cfg)
-    report.check("FLOOR", "wrappers", len(wrappers) >= FLOOR_WRAPPERS, "at least %d wrappers are analysed (found %d)" % (FLOOR_WRAPPERS, len(wrappers)), config=cfg)
+    mutators.public_mutator_floor(ctx, report, infos)
 
     for info in infos.values():
         f = info.fn
